@@ -9,8 +9,12 @@ import Sqfs.Model.XfrmOld
     → `ok <sink> <flushes>` | `err <code> <sink>` | `hang`
 * `istream <bufsz> <absorb> <gran> <thresh> <inner hex> <script n,n,..|-> <want:take,..|->`
     → `ok <bytes taken> <eof 0|1> <inner left> <sizes seen by each get>` | `err <code> <bytes taken> <sizes>` | `hang`
+* `ostreamx <bufsz> <absorb> <gran> <thresh> <append fail k:e|-> <flush fail k:e|-> <op>...`   the same over a wrapped stream whose
+    `k`-th `append` / `flush` call returns `e`  → `ok <sink> <flushes> <append calls>` | `err <code> <sink>` | `hang`
+* `istreamx <bufsz> <absorb> <gran> <thresh> <inner hex> <script> <want:take,..> <fail k:e|->`   the wrapped stream's `k`-th
+    `get_buffered_data` returns `e < 0`  → as `istream` plus `<get calls of the wrapped stream>`
 * `wrap <new|old> <gzip|xz|bzip2|zstd> <c|d> <absorb> <gran> <thresh> <call>...`
-    calls: `<mode 0|1|2>:<room>:<in hex>` → per call `ret,consumed,<out hex>` joined by spaces (`hang` ends the list)
+    calls: `<mode, any integer>:<room>:<in hex>` → per call `ret,consumed,<out hex>` joined by spaces (`hang` ends the list)
 * `magic <hex>` → `xfrm_compressor_id_from_magic`; `probe <hex>` → `plain` | `wrap <id>` (decision of `tar_open_stream`)
 * `toyenc <hex>` → the one-shot encoding; `toydec <hex>` → `ok <hex>` | `fail`
 * `monitor ...` — the specification predicates evaluated on an implementation's observed behaviour
@@ -68,20 +72,46 @@ def iRunTrace {σ : Type} (C : Codec σ) (bufsz : Nat) : IState σ → List (Nat
         | none => "assert"
         | some st2 => iRunTrace C bufsz st2 ops (acc ++ vis.take n) (vis.length :: sizes)
 
+def parseFail (s : String) : Option (Option (Nat × Int)) :=
+  if s = "-" then some none else
+  match s.splitOn ":" with
+  | [k, e] => do pure (some ((← parseNat? k), (← e.toInt?)))
+  | _ => none
+
+/-- like `oRunE`, result as a line -/
+def oRunTraceE {σ : Type} (C : Codec σ) (bufsz : Nat) (E : OEnv) : OStateE σ → List OOp → String
+  | s, [] => s!"ok {toHexTok s.st.sink} {s.st.flushed} {s.appends}"
+  | s, op :: ops =>
+    let r := match op with
+      | OOp.append d => oAppendE C bufsz fuel E s d
+      | OOp.flush => oFlushE C bufsz fuel E s
+    match r with
+    | none => "hang"
+    | some (.error (e, sink)) => s!"err {e} {toHexTok sink}"
+    | some (.ok s') => oRunTraceE C bufsz E s' ops
+
+def iRunTraceE {σ : Type} (C : Codec σ) (bufsz : Nat) : IStateE σ → List (Nat × Nat) → Bytes → List Nat → String
+  | st, [], acc, sizes => s!"ok {toHexTok acc} 0 {st.inner.inner.rest.length} {natsToStr sizes.reverse} {st.inner.calls}"
+  | st, (want, take) :: ops, acc, sizes =>
+    match iGetE C bufsz fuel st want with
+    | none => "hang"
+    | some (.error e) => s!"err {e} {toHexTok acc} {natsToStr sizes.reverse}"
+    | some (.ok (st1, vis, eof)) =>
+      if eof then s!"ok {toHexTok acc} 1 {st1.inner.inner.rest.length} {natsToStr (vis.length :: sizes).reverse} {st1.inner.calls}"
+      else
+        let n := min take vis.length
+        match iAdvanceE st1 n with
+        | none => "assert"
+        | some st2 => iRunTraceE C bufsz st2 ops (acc ++ vis.take n) (vis.length :: sizes)
+
 def resCode : Res → Int
   | Res.error => - (Sqfs.Consts.xfrmStreamError : Int)
   | Res.ok => Sqfs.Consts.xfrmStreamOk
   | Res.streamEnd => Sqfs.Consts.xfrmStreamEnd
   | Res.bufferFull => Sqfs.Consts.xfrmStreamBufferFull
 
-def parseFlush (s : String) : Option Flush :=
-  match s.toNat? with
-  | some n =>
-    if n = Sqfs.Consts.xfrmFlushNone then some Flush.none
-    else if n = Sqfs.Consts.xfrmFlushSync then some Flush.sync
-    else if n = Sqfs.Consts.xfrmFlushFull then some Flush.full
-    else none
-  | none => none
+/-- the flush mode as the backends read it (out-of-range values mean `FLUSH_NONE`) -/
+def parseFlush (s : String) : Option Flush := s.toInt?.map clampFlush
 
 def parseCall (t : String) : Option (Flush × Nat × Bytes) :=
   match t.splitOn ":" with
@@ -134,6 +164,18 @@ def step (line : String) : String :=
       let C := Toy.decoder ⟨a, g, t⟩
       iRunTrace C b (iInit C ⟨inner, script⟩) client [] []
     | _, _, _, _, _, _, _ => "bad-op"
+  | "ostreamx" :: b :: a :: g :: t :: af :: ff :: ops =>
+    match parseNat? b, parseNat? a, parseNat? g, parseNat? t, parseFail af, parseFail ff, ops.mapM parseOOp with
+    | some b, some a, some g, some t, some af, some ff, some ops =>
+      let C := Toy.encoder ⟨a, g, t⟩
+      oRunTraceE C b { appendFail := af, flushFail := ff } ⟨oInit C, 0⟩ ops
+    | _, _, _, _, _, _, _ => "bad-op"
+  | ["istreamx", b, a, g, t, inner, script, client, fail] =>
+    match parseNat? b, parseNat? a, parseNat? g, parseNat? t, fromHex inner, parseNatList script, parsePairs client, parseFail fail with
+    | some b, some a, some g, some t, some inner, some script, some client, some fail =>
+      let C := Toy.decoder ⟨a, g, t⟩
+      iRunTraceE C b ⟨C.init, [], 0, ⟨⟨inner, script⟩, 0, fail⟩⟩ client [] []
+    | _, _, _, _, _, _, _, _ => "bad-op"
   | "wrap" :: v :: backend :: dir :: a :: g :: t :: calls =>
     match parseNat? a, parseNat? g, parseNat? t, calls.mapM parseCall with
     | some a, some g, some t, some calls =>
